@@ -93,6 +93,12 @@ def main():
                     # not inside a string literal (rough: even number of quotes before)
                     if code[: m.start()].count('"') % 2 == 1:
                         continue
+                    # not inside a trailing comment
+                    c = code.find("//")
+                    while c >= 0 and code[:c].count('"') % 2 == 1:
+                        c = code.find("//", c + 2)
+                    if 0 <= c < m.start():
+                        continue
                     new = code[: m.start()] + m.expand(rep) + code[m.end():]
                     if new == code:
                         continue
